@@ -276,3 +276,17 @@ Lemma tie_const_transmute_body :
           "let a = ManuallyDrop :: new (a) ;";
           "ManuallyDrop :: into_inner (Union { a } . b)"].
 Proof. reflexivity. Qed.
+
+(* the checked reinterpretations of a slice: the length test first, then a cast of the slice's own data pointer
+   (no offset, no new length): the view starts at element 0 and its extent is the type's *)
+Lemma tie_slice_casts :
+  small_of "GenericArray" "from_slice" =
+    Some ["if slice . len () != N :: USIZE { panic ! (""slice.len() != N in GenericArray::from_slice"") ; }";
+          "unsafe { & * (slice . as_ptr () as * const GenericArray < T , N >) }"] /\
+  small_of "GenericArray" "try_from_slice" =
+    Some ["if slice . len () != N :: USIZE { return Err (LengthError) ; }";
+          "Ok (unsafe { & * (slice . as_ptr () as * const GenericArray < T , N >) })"] /\
+  small_of "GenericArray" "from_mut_slice" =
+    Some ["assert ! (slice . len () == N :: USIZE , ""slice.len() != N in GenericArray::from_mut_slice"") ;";
+          "unsafe { & mut * (slice . as_mut_ptr () as * mut GenericArray < T , N >) }"].
+Proof. repeat split. Qed.
